@@ -4,7 +4,7 @@ import numpy as np
 import common
 from common import cN, cZ, cnat, cbool, clist, copt, cpair
 
-PROOF_FILES = ['Proofs/Layers.v', 'Proofs/ConvT.v']
+PROOF_FILES = ['Proofs/Layers.v', 'Proofs/ConvT.v', 'Proofs/Conv2.v']
 ASSUMPTIONS = [
     'inputs and parameters are small integers held in float64, so the linear layers are exact and compared by equality; normalisation layers are compared within 1e-9 relative',
     'the reference is an independent numpy implementation of the documented formulas as direct sums (harness/c12_ref.py); the Gallina model covers Dense, 1-D Conv (all padding modes, stride, '
